@@ -43,6 +43,7 @@ type certSpec struct {
 	IPs            []h.B
 	NotBeforeOff   int64 // seconds relative to refInstant
 	NotAfterOff    int64
+	Nanos          int // sub-second part of both template times (must be dropped, not rounded)
 	TZ             int // minutes east of UTC of the template's time values
 	Serial         h.B // empty: the library draws one
 	KeyUsage       int
@@ -112,10 +113,40 @@ var ekuValues = []x509.ExtKeyUsage{x509.ExtKeyUsageAny, x509.ExtKeyUsageServerAu
 // offsets (seconds) around the reference instant; refInstant is in 2031, so
 // +-25 years and more leave the UTCTime range 1950..2049.
 var beforeOffsets = []int64{-1, 0, -86400, -365 * 86400, -10 * 365 * 86400, -90 * 365 * 86400, 3600, -59}
-var afterOffsets = []int64{1, 0, 86400, 365 * 86400, 18*365*86400 + 291*86400, 25 * 365 * 86400, -3600, 61, 251494851187} // last: 9999-12-31T23:59:59Z - refInstant (computed in init)
+var afterOffsets = []int64{1, 0, 86400, 365 * 86400, 18*365*86400 + 291*86400, 25 * 365 * 86400, -3600, 61}
 
-func init() {
-	afterOffsets[len(afterOffsets)-1] = int64(time.Date(9999, 12, 31, 23, 59, 59, 0, time.UTC).Sub(refInstant) / time.Second)
+// boundaryTimes: where the encoding of a time changes. UTCTime carries the
+// years 1950..2049 (two digits, 50..99 = 19xx), GeneralizedTime everything
+// else; year 1 and 9999-12-31T23:59:59 are the ends of what DER can say.
+var boundaryTimes = []time.Time{
+	time.Date(1949, 12, 31, 23, 59, 59, 0, time.UTC), time.Date(1950, 1, 1, 0, 0, 0, 0, time.UTC), time.Date(1950, 1, 1, 0, 0, 1, 0, time.UTC),
+	time.Date(1950, 7, 4, 12, 30, 0, 0, time.UTC), time.Date(1950, 12, 31, 23, 59, 59, 0, time.UTC), time.Date(1951, 1, 1, 0, 0, 0, 0, time.UTC),
+	time.Date(1999, 12, 31, 23, 59, 59, 0, time.UTC), time.Date(2000, 1, 1, 0, 0, 0, 0, time.UTC), time.Date(2000, 2, 29, 12, 0, 0, 0, time.UTC),
+	time.Date(2049, 12, 31, 23, 59, 0, 0, time.UTC), time.Date(2049, 12, 31, 23, 59, 59, 0, time.UTC), time.Date(2050, 1, 1, 0, 0, 0, 0, time.UTC),
+	time.Date(2050, 1, 1, 0, 0, 1, 0, time.UTC), time.Date(2051, 6, 1, 0, 0, 0, 0, time.UTC), time.Date(1, 1, 1, 0, 0, 0, 0, time.UTC),
+	time.Date(1, 12, 31, 23, 59, 59, 0, time.UTC), time.Date(9999, 12, 31, 23, 59, 59, 0, time.UTC), time.Date(9999, 1, 1, 0, 0, 0, 0, time.UTC),
+}
+
+// boundaryOffsets: the same as seconds relative to refInstant (time.Duration cannot span them).
+var boundaryOffsets = func() []int64 {
+	var out []int64
+	for _, t := range boundaryTimes {
+		out = append(out, t.Unix()-refInstant.Unix())
+	}
+	return out
+}()
+
+// genTimeOff draws an offset from the list around the reference instant or an encoding boundary.
+func genTimeOff(rt *rapid.T, label string, around []int64) int64 {
+	if rapid.IntRange(0, 2).Draw(rt, label+"-boundary") == 0 {
+		return rapid.SampledFrom(boundaryOffsets).Draw(rt, label+"-at")
+	}
+	return rapid.SampledFrom(around).Draw(rt, label)
+}
+
+// genNanos draws the sub-second part of the template's times (the encodings carry whole seconds).
+func genNanos(rt *rapid.T) int {
+	return rapid.SampledFrom([]int{0, 0, 0, 1, 500000000, 999999999}).Draw(rt, "nanos")
 }
 
 func subsetOf[T any](rt *rapid.T, label string, pool []T, max int) []T {
@@ -217,8 +248,9 @@ func genCertSpec(rt *rapid.T) certSpec {
 			s.IPs = append(s.IPs, h.B(ip))
 		}
 	}
-	s.NotBeforeOff = rapid.SampledFrom(beforeOffsets).Draw(rt, "notbefore")
-	s.NotAfterOff = rapid.SampledFrom(afterOffsets).Draw(rt, "notafter")
+	s.NotBeforeOff = genTimeOff(rt, "notbefore", beforeOffsets)
+	s.NotAfterOff = genTimeOff(rt, "notafter", afterOffsets)
+	s.Nanos = genNanos(rt)
 	s.TZ = rapid.SampledFrom([]int{0, 0, 480, -330, 765}).Draw(rt, "tz")
 	s.Serial = genSerial(rt, true)
 	s.KeyUsage = rapid.OneOf(rapid.Just(0), rapid.IntRange(1, 511), rapid.SampledFrom([]int{1, 32, 64, 96, 128, 256, 257, 511})).Draw(rt, "ku")
@@ -343,8 +375,12 @@ func toName(attrs []attrSpec) pkix.Name {
 	return n
 }
 
-func toTime(off int64, tzMin int) time.Time {
-	t := refInstant.Add(time.Duration(off) * time.Second)
+func toTime(off int64, tzMin int, nanos ...int) time.Time {
+	ns := 0
+	if len(nanos) > 0 {
+		ns = nanos[0]
+	}
+	t := time.Unix(refInstant.Unix()+off, int64(ns)).UTC() // (not Duration arithmetic: it saturates at 292 years)
 	if tzMin != 0 {
 		t = t.In(time.FixedZone("tz", tzMin*60))
 	}
@@ -380,8 +416,8 @@ func toTemplate(s certSpec) *x509.Certificate {
 		Subject:                     toName(s.Subject),
 		DNSNames:                    cpStrings(s.DNS),
 		EmailAddresses:              cpStrings(s.Emails),
-		NotBefore:                   toTime(s.NotBeforeOff, s.TZ),
-		NotAfter:                    toTime(s.NotAfterOff, s.TZ),
+		NotBefore:                   toTime(s.NotBeforeOff, s.TZ, s.Nanos),
+		NotAfter:                    toTime(s.NotAfterOff, s.TZ, s.Nanos),
 		KeyUsage:                    x509.KeyUsage(s.KeyUsage),
 		BasicConstraintsValid:       s.BC > 0,
 		IsCA:                        s.BC == 2,
